@@ -86,3 +86,12 @@ Lemma add64_small a b : a + b < two64 -> add64 a b = a + b.
 Proof. intros H. unfold add64. apply wrap64_small. exact H. Qed.
 Lemma two64_eq : two64 = 2 ^ 64.
 Proof. reflexivity. Qed.
+Lemma Ndiv_zero_r a : a / 0 = 0.
+Proof. destruct a; reflexivity. Qed.
+Lemma Ndiv_zero_l a : 0 / a = 0.
+Proof. destruct a; reflexivity. Qed.
+Lemma Ndiv_le a b : a / b <= a.
+Proof.
+  destruct (N.eq_0_gt_0_cases b) as [->|Hb]; [rewrite Ndiv_zero_r; lia|].
+  apply N.div_le_upper_bound; [lia|]. replace a with (1 * a) at 1 by lia. apply N.mul_le_mono_r. lia.
+Qed.
